@@ -649,6 +649,12 @@ func failedResultNotUsed(r *an.Run, rule string) {
 			if res.Len() < 2 || !an.IsErrorType(res.At(res.Len()-1).Type()) {
 				continue
 			}
+			// documented exception: a line read from a buffered reader comes WITH its error — the
+			// unterminated last line is handed back together with io.EOF — and is a (possibly empty) slice or
+			// string either way, never a pointer to dereference
+			if an.IsCallTo(c, lineReaderCalls...) || an.IsCallTo(c, "(io.Reader).Read", "io.ReadFull", "io.ReadAtLeast") {
+				continue
+			}
 			errs := an.ExtractOf(call, res.Len()-1)
 			if len(errs) == 0 {
 				continue
@@ -1104,6 +1110,124 @@ func c09EveryListedPatchLoaded(r *an.Run) {
 		})
 		if reach[l.Header] {
 			again = true
+		}
+	}
+	if again {
+		// path-sensitive second look: the same facts are tested more than once in an iteration of a
+		// reader loop (`readErr == nil || len(line) > 0` … `switch readErr { case nil: …`). An iteration
+		// that reaches the next one without loading is fine when the line is empty, or when nothing was
+		// read at all (the read failed and handed back no bytes)
+		if rd := readerCallIn(l); rd != nil {
+			errv := errValue(rd)
+			var lineV ssa.Value
+			if ex := an.ExtractOf(rd, 0); len(ex) > 0 {
+				lineV = ex[0]
+			}
+			isEmptyTest := func(c ssa.Value, of ssa.Value) (string, bool) {
+				cmp, ok := c.(*ssa.BinOp)
+				if !ok {
+					return "", false
+				}
+				if lc, ok := cmp.X.(*ssa.Call); ok && an.IsCallTo(lc, "builtin:len") && lc.Call.Args[0] == of {
+					if k, isc := an.ConstInt(cmp.Y); isc && k == 0 {
+						switch cmp.Op {
+						case token.EQL, token.LEQ:
+							return "", true
+						case token.GTR, token.NEQ:
+							return "not:", true
+						}
+					}
+				}
+				if cmp.X == of {
+					if sv, isc := an.ConstString(cmp.Y); isc && sv == "" {
+						switch cmp.Op {
+						case token.EQL:
+							return "", true
+						case token.NEQ:
+							return "not:", true
+						}
+					}
+				}
+				return "", false
+			}
+			classify := func(c ssa.Value) string {
+				if cmp, ok := c.(*ssa.BinOp); ok && (cmp.Op == token.EQL || cmp.Op == token.NEQ) && errv != nil && cmp.X == errv {
+					if an.IsNilConst(cmp.Y) {
+						if cmp.Op == token.NEQ {
+							return "not:err-nil"
+						}
+						return "err-nil"
+					}
+					return "err-is:" + an.Describe(cmp.Y)
+				}
+				for _, line := range sameLine(text) {
+					if pre, ok := isEmptyTest(c, line); ok {
+						return pre + "path-empty"
+					}
+				}
+				if lineV != nil {
+					if pre, ok := isEmptyTest(c, lineV); ok {
+						return pre + "nothing-read"
+					}
+				}
+				return ""
+			}
+			started := false
+			paths, err := an.EnumeratePathsFrom(rd.Block(), classify, func(b *ssa.BasicBlock) bool {
+				if !started {
+					started = true // the block of the read itself (it may be the loop's header)
+					return false
+				}
+				if len(b.Succs) == 1 && b.Succs[0] == l.Header {
+					return true // about to start the next iteration
+				}
+				return b == l.Header || !l.Blocks[b]
+			}, 512, true)
+			if err == nil {
+				again = false
+				get := func(p an.DPath, a string) (bool, bool) {
+					if v, ok := p.Atoms[a]; ok {
+						return v, true
+					}
+					if v, ok := p.Atoms["not:"+a]; ok {
+						return !v, true
+					}
+					return false, false
+				}
+				for _, p := range paths {
+					if p.End != l.Header && !(len(p.End.Succs) == 1 && p.End.Succs[0] == l.Header && l.Blocks[p.End]) {
+						continue
+					}
+					// inconsistent valuations of one fact tested in both polarities
+					incons := false
+					for a, v := range p.Atoms {
+						if w, ok := p.Atoms["not:"+a]; ok && w == v {
+							incons = true
+						}
+					}
+					if incons {
+						continue
+					}
+					loads := false
+					for _, b := range p.Blocks {
+						if b == load.Block() {
+							loads = true
+						}
+					}
+					if loads {
+						continue
+					}
+					empty, ek := get(p, "path-empty")
+					nothing, nk := get(p, "nothing-read")
+					errNil, errK := get(p, "err-nil")
+					// a path back to the header on which the read failed cannot exist when the loop leaves on error;
+					// if it does exist, it is a skipped line
+					if ek && empty || nk && nothing && errK && !errNil {
+						continue
+					}
+					again = true
+				}
+			}
 		}
 	}
 	r.Check(!again, short(f)+"|every-line-loaded", load.Pos(), "every non-empty line of the -P file is loaded, in order, as often as it is listed: no path of an iteration skips LoadFile except for an empty line")
@@ -2914,4 +3038,67 @@ func sameLine(v ssa.Value) []ssa.Value {
 		}
 	}
 	return out
+}
+
+// lineReaderCalls: reads of one line from a buffered reader; the data they
+// hand back is meaningful together with a non-nil error (the unterminated last
+// line comes with io.EOF).
+var lineReaderCalls = []string{"(*bufio.Reader).ReadSlice", "(*bufio.Reader).ReadString", "(*bufio.Reader).ReadBytes", "(*bufio.Reader).ReadLine"}
+
+// readerCallIn returns the one line-reading call of loop l, or nil.
+func readerCallIn(l *an.Loop) *ssa.Call {
+	var out *ssa.Call
+	for b := range l.Blocks {
+		for _, in := range b.Instrs {
+			if c, ok := in.(*ssa.Call); ok && an.IsCallTo(c, lineReaderCalls...) {
+				if out != nil {
+					return nil
+				}
+				out = c
+			}
+		}
+	}
+	return out
+}
+
+// lineOfReader walks from the text handed to the loader back to the line a
+// reader call produced: string conversion, and removal of the line terminator
+// ("\n", then "\r") — what bufio.ScanLines does. It returns the reader call.
+func lineOfReader(v ssa.Value) *ssa.Call {
+	for steps := 0; steps < 8; steps++ {
+		switch x := v.(type) {
+		case *ssa.Convert:
+			v = x.X
+		case *ssa.Extract:
+			if c, ok := x.Tuple.(*ssa.Call); ok && an.IsCallTo(c, lineReaderCalls...) && x.Index == 0 {
+				return c
+			}
+			return nil
+		case *ssa.Call:
+			if an.IsCallTo(x, "strings.TrimSuffix", "bytes.TrimSuffix") {
+				if sfx, isc := an.ConstString(x.Call.Args[1]); isc && (sfx == "\n" || sfx == "\r" || sfx == "\r\n") {
+					v = x.Call.Args[0]
+					continue
+				}
+				if sfx := constantBytes(x.Call.Args[1]); sfx == "\n" || sfx == "\r" || sfx == "\r\n" {
+					v = x.Call.Args[0]
+					continue
+				}
+			}
+			return nil
+		default:
+			return nil
+		}
+	}
+	return nil
+}
+
+// constantBytes: v is []byte("…") of a constant string.
+func constantBytes(v ssa.Value) string {
+	if cv, ok := v.(*ssa.Convert); ok {
+		if s, isc := an.ConstString(cv.X); isc {
+			return s
+		}
+	}
+	return "\x00"
 }
